@@ -30,6 +30,9 @@ QUERIES = qpool.STANDARD[:25] + [
     "$.~", "$[~]", "$..~", "$[*].~", "^[?@.a]", "^[0]", "$[?# == 'a']", "$[?# > 0]", "$[?@.a == _.x]", "$[?_.flag]", "$[?@[?@ == _.x.y]]", "$[?$.a[?@ == _.v]]",
     "$.a[*] | $.b[*]", "$.a[*] & $.b[*] & $.c[*]", "^[0] | $.a", "$[?^[0].k == @.a]", "$..[?# == 'a' && @ == 1]", "$[?@.a in $.list]", "$[?@.xs[?@.ys[?@ == $.k]]]",
     "$.xs[?# == 1 || _.v == @.k].~", "$[?count(@.*) == 2 && # != 'z']", "$.a[*] | ^[0].b[*] & $.c[*]", "$[~, 'a', ?@.k == _.v]",
+    # the spellings themselves as member names and string contents (quoted, they are data), and names that begin like a token
+    "$['$$', '@@', '##', '__', '~~', '^^', '<|>', '<&>', '%%', '*~']", "$[?@.a == '<|>' || @.b == '$$' || @.s == '__']", "$['_x']['__y'].a", "$[?@['~~'] == _['$@']]",
+    "$['|'] | $['&']", "$[?@.a == '%' && # != '+']",
 ]
 
 
